@@ -595,7 +595,8 @@ def main(tier, seed):
     # the same streams read by a decoder with template compilation (cache sizes 0, 1, 4): damage must be detected whether or
     # not a template - of this or of an equally damaged earlier message - is in the compiled-template cache
     cplan = ([(1, 2, 2, 'core'), (0, 3, 2, 'mini'), (4, 3, 2, 'mini')] if tier == 'quick' else
-             [(c, j, b, m) for c in (0, 1, 4) for j, b, m in ((2, 2, 'full'), (3, 2, 'core'), (4, 2, 'mini'))])
+             [(1, 2, 2, 'full'), (1, 3, 2, 'core'), (1, 4, 2, 'mini')] +
+             [(c, j, b, m) for c in (0, 4) for j, b, m in ((2, 2, 'core'), (3, 2, 'mini'))])
     for ccmax, j, bound, menu in cplan:
         if True:
             tuples = list(itertools.product(idx, repeat=j))
